@@ -77,10 +77,20 @@ type c02Reader struct {
 	done  bool // a read reported an error (EOF)
 	reads int
 	infl  bool
+	// window: every buffer handed to a read is a window into a larger array (len < cap) guarded by canaries
+	window bool
 }
 
 func (r *c02Reader) issue(forced bool) {
 	buf := make([]byte, r.B)
+	var arena []byte
+	if r.window {
+		arena = make([]byte, r.B+24)
+		for i := range arena {
+			arena[i] = 0xC7
+		}
+		buf = arena[8 : 8+r.B]
+	}
 	r.reads++
 	id := r.reads
 	calls := 0
@@ -94,6 +104,11 @@ func (r *c02Reader) issue(forced bool) {
 		}
 		if n < 0 || n > len(buf) {
 			r.x.Fail("stream.read/count-out-of-range", "read#%d: n=%d with a %d-byte buffer", id, n, len(buf))
+		}
+		for i, c := range arena {
+			if (i < 8 || i >= 8+r.B) && c != 0xC7 {
+				r.x.Fail("stream.read/wrote-outside-buffer", "read#%d into a %d-byte window of a larger array changed byte %d of the array, outside the window", id, r.B, i)
+			}
 		}
 		if r.pos+n > r.sent {
 			r.x.Fail("stream.read/bytes-invented", "read#%d reports %d bytes, only %d were sent and undelivered", id, n, r.sent-r.pos)
@@ -140,6 +155,7 @@ func c02Read(x *engine.X, kind string, maxN int) {
 	comp := comps[x.Pick(len(comps), "composition")]
 	sizes := []int{1, 2, 3, 5, 8}
 	r := &c02Reader{x: x, d: d, o: o, B: sizes[x.Pick(len(sizes), "buffer size")], all: x.Pick(2, "AsyncRead/AsyncReadAll") == 1, N: N}
+	r.window = x.Deviate(2, "buffers are windows into a larger array") == 1
 	late := x.Deviate(2, "first read started after the first chunk") == 1
 	forced := x.Deviate(2, "first read forced-deferred") == 1
 	var wcalls int
@@ -235,22 +251,43 @@ func c02WriteFifo(x *engine.X) {
 	d.ioc.Dispatched = 0
 	x.Note("write/fifo pages=%d n=%d all=%v prefill=%d forced=%v", pages, n, all, prefill, forced)
 	x.Nontrivial()
-	var got []byte
-	skip := prefill
+	// The reader keeps everything it reads (raw); bytes that are not the operation's own — the pre-fill and what a
+	// second writer put into the pipe — are known by their absolute stream offsets and cut out before comparing.
+	var raw []byte
+	var foreign [][2]int
+	if prefill > 0 {
+		foreign = append(foreign, [2]int{0, prefill})
+	}
 	drain := func(max int) {
 		b := make([]byte, max)
 		m, err := syscall.Read(rfd, b)
 		if err == nil && m > 0 {
-			b = b[:m]
-			if skip > 0 {
-				k := min(skip, len(b))
-				skip -= k
-				b = b[k:]
-			}
-			got = append(got, b...)
+			raw = append(raw, b[:m]...)
 		}
 	}
+	refills := 0
 	for step := 0; step < 12 && calls == 0; step++ {
+		// A second writer on the same pipe (a handler posted to the loop, so it runs in the same poll cycle, ahead of
+		// the write's readiness event) takes all the room the reader is about to make: the resumed write finds the
+		// pipe full again and has to be parked a second time, with the progress it has made so far.
+		if refills < 2 && x.Deviate(2, "a second writer refills the pipe in the same poll cycle") == 1 {
+			refills++
+			d.ioc.Post(func() {
+				start := len(raw) + kern.Inq(rfd)
+				k := 0
+				fill := make([]byte, 4096)
+				for {
+					m, err := syscall.Write(f.RawFd(), fill)
+					if err != nil || m <= 0 {
+						break
+					}
+					k += m
+				}
+				if k > 0 {
+					foreign = append(foreign, [2]int{start, start + k})
+				}
+			})
+		}
 		switch x.Deviate(3, "reader drains a page / nothing / everything") {
 		case 0:
 			drain(4096)
@@ -265,16 +302,29 @@ func c02WriteFifo(x *engine.X) {
 			d.ioc.PollOne()
 		}
 	}
+	drain(1 << 16)
 	if calls != 1 {
 		x.Fail("stream.write/callback-count", "write of %d bytes: callback ran %d times although the reader drained the pipe", n, calls)
 	}
+	var got []byte
+	for i, c := range raw {
+		own := true
+		for _, r := range foreign {
+			if i >= r[0] && i < r[1] {
+				own = false
+			}
+		}
+		if own {
+			got = append(got, c)
+		}
+	}
 	for i := range got {
-		if got[i] != genByte(i) {
-			x.Fail("stream.write/wrong-bytes", "byte %d arrived as %#x, written %#x", i, got[i], genByte(i))
+		if i >= n || got[i] != genByte(i) {
+			x.Fail("stream.write/wrong-bytes", "byte %d of what the operation put into the pipe is %#x; it was asked to write %d bytes and byte %d is %#x (foreign ranges %v)", i, got[i], n, i, genByte(i), foreign)
 		}
 	}
 	if cn != len(got) {
-		x.Fail("stream.write/count-vs-moved", "the callback reports %d bytes (err=%v), the reader received %d", cn, cerr, len(got))
+		x.Fail("stream.write/count-vs-moved", "the callback reports %d bytes (err=%v), the reader received %d (foreign ranges %v)", cn, cerr, len(got), foreign)
 	}
 	if cerr == nil {
 		if all && cn != n {
